@@ -247,9 +247,12 @@ def run(res, tier, seed, wd, replay=None):
     log("[B] random histories: mlw %d runs/%d calls, spy sink %d runs/%d calls, panics=%d" % (
         s1["runs"], s1["calls"], s2["runs"], s2["calls"], s1["panics"] + s2["panics"]))
     res.sample({"kind": "random history driver", "mlw": s1["sample"], "spy": s2["sample"]})
+    # the composed stack (client -> queuing wrapper -> buffered sink): its wire is judged by the same monitor
+    stack_model(res, wd)
+    _tq, trS, nstack = stack_traces(res, tier, seed, wd)
     # ---- verdict: TLC validates every recorded trace against the monitor
     allf = os.path.join(wd, "trace-all.ndjson")
-    nev = concat([trA, trB1, trB2], allf)
+    nev = concat([trA, trB1, trB2, trS], allf)
     v = validate_trace("WriterTrace", allf, wd, timeout=1800)
     if v["consumed"] != v["total"]:
         raise ToolError("trace not fully consumed: %s of %s" % (v["consumed"], v["total"]))
@@ -265,10 +268,12 @@ def run(res, tier, seed, wd, replay=None):
                     if i + 1 == e["beh"]:
                         b = json.loads(l)
             return {"how": "writer-replay", "behaviour": b}
+        if str(e.get("kind", "")).startswith("stack-"):
+            return {"how": "stack-drive", "run": e.get("run"), "args": ["--seed", seed]}
         return {"how": "writer-drive", "kind": e.get("kind"), "run": e.get("run"),
                 "args": ["--kind", e.get("kind"), "--seed", seed, "--runs", runs_mlw if e.get("kind") == "mlw" else runs_spy, "--ops", ops]}
     judge(res, v, events, origin)
-    ntraces = summ["behaviours"] + s1["runs"] + s2["runs"]
+    ntraces = summ["behaviours"] + s1["runs"] + s2["runs"] + nstack
     res.cov["traces_validated_against_impl"] = ntraces
     res.cov["evaluations"] = nev
     res.cov["distinct_nontrivial"] = ntraces
